@@ -175,3 +175,22 @@ def _list_unit(fname, cls, item, prop):
 argument_list = _list_unit("argument_list", "ExprParser", "expression", "C09")
 parameter_list = _list_unit("parameter_list", "Parser", "declaration", "C09")
 LIST_UNITS = [argument_list, parameter_list]
+
+
+# ---------------------------------------------------------------------------------------------------------
+# C09: "(void)" is the empty parameter list -- and nothing else is ([dcl.fct]: a parameter list consisting of the single
+# unnamed, non-dependent parameter of type void; `void *` or `void (*)(int)` are ordinary parameters).
+_PARAM = ("obj", "Declaration", {"declarator": ("opt", ("obj", "Declarator", {})), "specifier": "list[str]"})
+void_rule = Unit(
+    prop="C09", name="Parser.declaration[(void)]", target="shroud/declast.py::Parser.declaration",
+    slice=("if len(node.params) == 1: pass", "if len(node.params) == 1: pass"),
+    params={"node": ("obj", "Declaration", {"params": ("clist", _PARAM)})},
+    init="p0 = node.params[0]\nplist0 = node.params\n",
+    ensures=[
+        "implies(p0.declarator is None and len(p0.specifier) == 1 and p0.specifier[0] == 'void', len(node.params) == 0)",
+        "implies(not (p0.declarator is None and len(p0.specifier) == 1 and p0.specifier[0] == 'void'), "
+        "len(node.params) == 1 and node.params is plist0)",
+    ],
+    raises=[],
+)
+LIST_UNITS += [void_rule]
